@@ -25,6 +25,8 @@ pub enum Cop {
 	O,
 	/// begin a read transaction that stays open (its view must not move with later commits)
 	B,
+	/// rotate the memtable without flushing it (an immutable memtable stays queued)
+	R,
 }
 
 fn cop_str(c: &Cop) -> String {
@@ -34,6 +36,7 @@ fn cop_str(c: &Cop) -> String {
 		Cop::C => "C".into(),
 		Cop::O => "O".into(),
 		Cop::B => "B".into(),
+		Cop::R => "R".into(),
 	}
 }
 
@@ -62,6 +65,7 @@ impl Case {
 					"C" => Cop::C,
 					"O" => Cop::O,
 					"B" => Cop::B,
+					"R" => Cop::R,
 					w => {
 						let (k, key) = w.split_once('(').unwrap();
 						let key = key.trim_end_matches(')');
@@ -114,8 +118,18 @@ fn apply(w: &mut World, c: &Cop, n: &mut usize) -> Result<Option<(String, String
 				Err(e) => return Ok(Some((format!("commit-error:{}", crate::props::norm_msg(&e)), format!("commit failed: {e}")))),
 			}
 		}
-		Cop::F => w.physical(Phys::FlushAll)?,
-		Cop::C => w.physical(Phys::Compact)?,
+		// no fault is injected in this check: a flush, compaction or rotation that fails means the
+		// store's files are not in the state its manifest describes
+		Cop::F | Cop::C | Cop::R => {
+			let p = match c {
+				Cop::F => Phys::FlushAll,
+				Cop::C => Phys::Compact,
+				_ => Phys::Rotate,
+			};
+			if let Err(e) = w.physical(p) {
+				return Ok(Some((format!("maintenance-error:{}", crate::props::norm_msg(&e)), format!("{}: {e}", cop_str(c)))));
+			}
+		}
 		Cop::B => {
 			w.drop_reader(0);
 			w.begin_reader(0, surrealkv::Mode::ReadOnly)?;
@@ -242,6 +256,144 @@ fn run_case_inner(opt: &OptSet, case: &Case, drain_before_restore: bool) -> Resu
 	res
 }
 
+/// Two checkpoints A (earlier) and B (later) and two restores in every order: restoring moves the
+/// store backwards or forwards between the two states; at the end the directory of the running
+/// store is copied (process-crash image) and must recover to the model.
+#[derive(Clone, Debug)]
+pub struct Case2 {
+	pub mid1: Vec<Cop>,
+	pub mid2: Vec<Cop>,
+	pub restores: [u8; 2],
+	pub post1: Vec<Cop>,
+	pub post2: Vec<Cop>,
+}
+
+fn cops_str(v: &[Cop]) -> String {
+	v.iter().map(cop_str).collect::<Vec<_>>().join(" ")
+}
+
+impl Case2 {
+	fn short(&self) -> String {
+		let n = |r: u8| if r == 0 { "A" } else { "B" };
+		format!("CK_A [{}] CK_B [{}] RS_{} [{}] RS_{} [{}] crash", cops_str(&self.mid1), cops_str(&self.mid2), n(self.restores[0]), cops_str(&self.post1), n(self.restores[1]), cops_str(&self.post2))
+	}
+	fn to_json(&self) -> J {
+		let enc = |v: &Vec<Cop>| v.iter().map(cop_str).collect::<Vec<_>>();
+		json!({"mid1": enc(&self.mid1), "mid2": enc(&self.mid2), "restores": [self.restores[0], self.restores[1]], "post1": enc(&self.post1), "post2": enc(&self.post2)})
+	}
+	fn from_json(j: &J) -> Case2 {
+		let dec = |v: &J| Case::from_json(&json!({"pre": 0, "mid": v, "post": []})).mid;
+		Case2 {
+			mid1: dec(&j["mid1"]),
+			mid2: dec(&j["mid2"]),
+			restores: [j["restores"][0].as_u64().unwrap_or(0) as u8, j["restores"][1].as_u64().unwrap_or(0) as u8],
+			post1: dec(&j["post1"]),
+			post2: dec(&j["post2"]),
+		}
+	}
+}
+
+pub fn cases2(tier: Tier) -> Vec<Case2> {
+	let w = |k: &'static [u8]| Cop::W(Kind::Set, k);
+	let mids: Vec<Vec<Cop>> = vec![
+		vec![w(b"a")],
+		vec![w(b"b"), Cop::F],
+		vec![w(b"a"), Cop::F, w(b"b"), Cop::F, w(b"a"), Cop::F, w(b"b"), Cop::F],
+		vec![Cop::W(Kind::Delete, b"b"), Cop::R],
+	];
+	let mut posts: Vec<Vec<Cop>> = vec![vec![], vec![w(b"a")], vec![w(b"b"), Cop::F]];
+	if tier == Tier::Thorough {
+		posts.push(vec![w(b"a"), Cop::F, Cop::C]);
+		posts.push(vec![w(b"a"), Cop::O]);
+	}
+	let mut out = vec![];
+	for mid1 in &mids {
+		for mid2 in &mids {
+			for restores in [[0u8, 1u8], [1, 0], [0, 0], [1, 1]] {
+				for post1 in &posts {
+					for post2 in &posts {
+						out.push(Case2 { mid1: mid1.clone(), mid2: mid2.clone(), restores, post1: post1.clone(), post2: post2.clone() });
+					}
+				}
+			}
+		}
+	}
+	out.sort_by_key(|c| c.mid1.len() + c.mid2.len() + c.post1.len() + c.post2.len());
+	out
+}
+
+pub fn run_case2(opt: &OptSet, case: &Case2) -> Result<Option<(String, String)>, String> {
+	let mut w = World::new(opt.clone(), &[b"a", b"b", b"c"])?;
+	let mut n = 0usize;
+	let dirs = [fresh_dir("ckptA"), fresh_dir("ckptB")];
+	let res = (|| -> Result<Option<(String, String)>, String> {
+		for c in [Cop::W(Kind::Set, b"a"), Cop::W(Kind::Set, b"b")] {
+			if let Some((cl, t)) = apply(&mut w, &c, &mut n)? {
+				return Ok(Some((format!("pre:{cl}"), t)));
+			}
+		}
+		let mut saved = vec![];
+		for (i, mid) in [&case.mid1, &case.mid2].into_iter().enumerate() {
+			let ck = {
+				let _g = w.rt.as_ref().unwrap().enter();
+				w.tree().create_checkpoint(&dirs[i])
+			};
+			if let Err(e) = ck {
+				return Ok(Some((format!("checkpoint-error:{}", crate::props::norm_msg(&e.to_string())), format!("create_checkpoint {i}: {e}"))));
+			}
+			saved.push(w.model.commits.clone());
+			for c in mid {
+				if let Some((cl, t)) = apply(&mut w, c, &mut n)? {
+					return Ok(Some((format!("mid:{cl}"), t)));
+				}
+			}
+		}
+		for (i, post) in [&case.post1, &case.post2].into_iter().enumerate() {
+			let which = case.restores[i] as usize;
+			{
+				let _g = w.rt.as_ref().unwrap().enter();
+				if let Err(e) = w.tree().restore_from_checkpoint(&dirs[which]) {
+					return Ok(Some((format!("restore-error:{}", crate::props::norm_msg(&e.to_string())), format!("restore {} (checkpoint {}): {e}", i + 1, if which == 0 { "A" } else { "B" }))));
+				}
+			}
+			w.model.commits = saved[which].clone();
+			if let Some(m) = w.check_all() {
+				return Ok(Some((format!("after-restore:mismatch:{}:{}", m.query.split('(').next().unwrap_or(""), m.kind), format!("right after restore {}: {}", i + 1, m.text()))));
+			}
+			for (j, c) in post.iter().enumerate() {
+				if let Some((cl, t)) = apply(&mut w, c, &mut n)? {
+					return Ok(Some((format!("post:{cl}"), format!("after restore {}, step {j} {}: {t}", i + 1, cop_str(c)))));
+				}
+			}
+		}
+		// process-crash image of the running store
+		let img = fresh_dir("c14-img");
+		crate::util::copy_dir(&w.dir, &img).map_err(|e| format!("copy: {e}"))?;
+		let _ = std::fs::remove_file(img.join("LOCK"));
+		let expect: BTreeMap<Vec<u8>, Vec<u8>> = w.model.state(w.model.len());
+		let mut w2 = World::attach(opt.clone(), &img, &[]);
+		let r = w2.open().and_then(|_| w2.dump());
+		w2.abandon();
+		drop(w2);
+		let _ = std::fs::remove_dir_all(&img);
+		match r {
+			Err(e) => Ok(Some((format!("crash-image-does-not-open:{}", crate::props::norm_msg(&e)), format!("recovering a copy of the running store's directory: {e}")))),
+			Ok(c) => {
+				let got: BTreeMap<Vec<u8>, Vec<u8>> = c.into_iter().collect();
+				if got != expect {
+					let show = |m: &BTreeMap<Vec<u8>, Vec<u8>>| m.iter().map(|(k, v)| format!("{}={}", String::from_utf8_lossy(k), String::from_utf8_lossy(v))).collect::<Vec<_>>().join(",");
+					return Ok(Some(("crash-image-content".into(), format!("a copy of the running store's directory recovers to {{{}}}, the store itself answers {{{}}}", show(&got), show(&expect)))));
+				}
+				Ok(None)
+			}
+		}
+	})();
+	for d in &dirs {
+		let _ = std::fs::remove_dir_all(d);
+	}
+	res
+}
+
 pub fn option_sets(tier: Tier) -> Vec<OptSet> {
 	let mut v = vec![OptSet::base("L2"), OptSet::base("L2-vlog8-64").with_vlog(8, 64)];
 	if tier == Tier::Thorough {
@@ -260,7 +412,7 @@ pub fn check(tier: Tier) -> i32 {
 	let mut report = Report::new("C14", tier, "model_checking");
 	let budget = Budget::new(if tier == Tier::Quick { 50.0 } else { 600.0 });
 	let (m, p) = if tier == Tier::Quick { (2, 3) } else { (3, 3) };
-	let mid_alpha = vec![Cop::W(Kind::Set, b"a"), Cop::W(Kind::Delete, b"b"), Cop::F, Cop::C];
+	let mid_alpha = vec![Cop::W(Kind::Set, b"a"), Cop::W(Kind::Delete, b"b"), Cop::F, Cop::C, Cop::R];
 	let post_alpha = vec![Cop::W(Kind::Set, b"a"), Cop::W(Kind::Set, b"b"), Cop::F, Cop::C, Cop::O, Cop::B];
 	let mut cases = vec![];
 	for pre in 0..3 {
@@ -324,6 +476,49 @@ pub fn check(tier: Tier) -> i32 {
 			first.entry(cl).or_insert((format!("[{}] {} => {t}", opt.name, cases[i].short()), json!({"engine": "c14", "options": opt.to_json(), "case": cases[i].to_json()})));
 		}
 	}
+	// two checkpoints, two restores
+	{
+		let c2 = cases2(tier);
+		let b2 = Budget::new(if tier == Tier::Quick { 12.0 } else { 200.0 });
+		for opt in option_sets(tier) {
+			let found: Mutex<Vec<(usize, String, String)>> = Mutex::new(vec![]);
+			let done = std::sync::atomic::AtomicU64::new(0);
+			c2.par_iter().enumerate().for_each(|(i, c)| {
+				if b2.exhausted() {
+					return;
+				}
+				let r = crate::util::guarded(|| run_case2(&opt, c));
+				done.fetch_add(1, std::sync::atomic::Ordering::Relaxed);
+				match r {
+					Ok(Ok(None)) => {}
+					Ok(Ok(Some((cl, t)))) => found.lock().unwrap().push((i, cl, t)),
+					Ok(Err(e)) => found.lock().unwrap().push((i, "machinery".into(), e)),
+					Err(p) => found.lock().unwrap().push((i, format!("panic:{}", crate::props::norm_msg(&p)), p)),
+				}
+			});
+			let d = done.load(std::sync::atomic::Ordering::Relaxed);
+			evaluations += d;
+			transitions += d * 8;
+			nontrivial += d;
+			if (d as usize) < c2.len() {
+				all_complete = false;
+				completed.push(format!("two-checkpoints {}: {d} of {} cases (time cap)", opt.name, c2.len()));
+			} else {
+				completed.push(format!("two-checkpoints {}: all {} cases (4 mid x 4 mid x 4 restore orders x posts^2)", opt.name, c2.len()));
+			}
+			let mut found = found.into_inner().unwrap();
+			found.sort_by_key(|f| f.0);
+			for (i, cl, t) in found {
+				if cl == "machinery" {
+					eprintln!("machinery: {t}");
+					return 2;
+				}
+				let cl = format!("two-checkpoints:{cl}");
+				*per_class.entry(cl.clone()).or_default() += 1;
+				first.entry(cl).or_insert((format!("[{}] {} => {t}", opt.name, c2[i].short()), json!({"engine": "c14-two", "options": opt.to_json(), "case": c2[i].to_json()})));
+			}
+		}
+	}
 	for (class, n) in &per_class {
 		let (text, replay) = first.get(class).cloned().unwrap_or_default();
 		report.violations.push(Violation {
@@ -364,10 +559,19 @@ pub fn check(tier: Tier) -> i32 {
 
 pub fn replay(r: &J) -> i32 {
 	surrealkv::verif::set_forced_height(1);
+	surrealkv::verif::set_gc_interval(2);
 	let opt = OptSet::from_json(&r["options"]);
-	let case = Case::from_json(&r["case"]);
-	println!("replaying C14 [{}] {}", opt.name, case.short());
-	let run = || crate::util::guarded(|| run_case(&opt, &case)).unwrap_or_else(|p| Ok(Some(("panic".into(), p))));
+	let two = r["engine"] == "c14-two";
+	let case = if two { Case { pre: 0, mid: vec![], post: vec![] } } else { Case::from_json(&r["case"]) };
+	let case2 = if two { Some(Case2::from_json(&r["case"])) } else { None };
+	println!("replaying C14 [{}] {}", opt.name, case2.as_ref().map(|c| c.short()).unwrap_or_else(|| case.short()));
+	let run = || {
+		crate::util::guarded(|| match &case2 {
+			Some(c2) => run_case2(&opt, c2).map(|r| r.map(|(c, t)| (format!("two-checkpoints:{c}"), t))),
+			None => run_case(&opt, &case),
+		})
+		.unwrap_or_else(|p| Ok(Some(("panic".into(), p))))
+	};
 	let a = run();
 	let b = run();
 	match (a, b) {
